@@ -13,7 +13,7 @@ RULE = ('seeded sessions of 1-6 stream operations (shell, exec_out, streaming_sh
         '>= 1 multi-WRITE transfer in the run; distinct = event-log digests')
 ASSUMPTIONS = ['the device stalls until the OKAY it is owed arrives, as adbd does, so a missing OKAY becomes a timeout',
                'that list/stat/pull close their stream is C08/C09\'s statement; reboot() legitimately leaves its stream open']
-EXPECT_PROBES = {'all': ['c04_multi_wrte_push', 'c04_ge_4_streams', 'empty_payload_wrte_acked', 'push_fail_sent', 'fail_before_okay', 'wrte_in_flight_at_host_close']}
+EXPECT_PROBES = {'all': ['c04_multi_wrte_push', 'c04_ge_4_streams', 'empty_payload_wrte_acked', 'push_fail_sent', 'fail_before_okay', 'wrte_in_flight_at_host_close', 'recv_closed_mid_transfer']}
 KINDS = ['shell', 'exec_out', 'streaming_shell', 'root', 'list', 'stat', 'pull', 'pull', 'push', 'push']
 OWN = ('protocol', 'wrong-result', 'unexpected-exception', 'timeout-instead-of-result', 'missing-exception', 'wrong-exception', 'hang', 'no-termination',
        'unacked-write', 'clse-count')
@@ -46,6 +46,13 @@ def generate(seed, tier):
         d['fs'][p]['records'] = [g.pick([500, 1000, 2000])]
         d['cut_plans'] = [{'policy': g.pick(['record', 'random', 'straddle']), 'seed': g.int(0, 999)}]
         scn['actors'][0].append({'op': 'pull', 'path': p, 'dest': 'failing', 'fail_after': g.int(0, 3)})
+    elif c == 4:
+        # the device's sync service dies in the middle of a pull: DATA..., then CLSE (no DONE): exactly one host CLSE must answer it
+        p = S.add_file(g, d, 20000)
+        d['fs'][p]['content']['size'] = g.int(3000, 20000)
+        d['fs'][p]['records'] = [g.pick([500, 1000, 2000])]
+        d.setdefault('recv_close', {})[p] = {'n': g.int(0, 3)}
+        scn['actors'][0].append({'op': 'pull', 'path': p, 'dest': 'bytesio', 'rt': 2.0, 'tt': 1.0})
     return {'seed': seed, 'scn': scn}
 
 
